@@ -35,6 +35,11 @@ WellFormedNum(t) == LET dots == {i \in 1..Len(t) : SubSeq(t, i, i) = "."}
                        /\ \E i \in 1..Len(t) : SubSeq(t, i, i) \in Digits
 ColonPos(t) == LET ps == {i \in 1..Len(t) : SubSeq(t, i, i) = ":"} IN IF ps = {} THEN 0 ELSE CHOOSE i \in ps : \A j \in ps : i <= j
 PrefixOf(t) == IF ColonPos(t) = 0 THEN "" ELSE SubSeq(t, 1, ColonPos(t) - 1)
+\* a name token is a QName (Namespaces in XML, productions 4-8): both halves are NCNames - a letter or underscore first, then
+\* letters, digits, '-', '.', '_' - and the local half of a name test may be '*'
+NCNameOK(s) == Len(s) > 0 /\ Ch1(s) \in Letters /\ \A i \in 1..Len(s) : SubSeq(s, i, i) \in Letters \cup Digits \cup {"-", "."}
+QNameOK(t) == IF ColonPos(t) = 0 THEN NCNameOK(t)
+              ELSE LET l == SubSeq(t, ColonPos(t) + 1, Len(t)) IN NCNameOK(PrefixOf(t)) /\ (l = "*" \/ NCNameOK(l))
 KnownPrefixes == {"", "p", "q"}
 
 \* registered functions and their declared number of arguments
@@ -63,6 +68,7 @@ LexOne(ts, i, prev) ==
   ELSE IF IsLitTok(t) THEN "lit"
   ELSE IF t = "*" THEN (IF CanBeOp(prev) THEN "op:*" ELSE "nametest")
   ELSE IF t \in Punct THEN t
+  ELSE IF IsNameTok(t) /\ ~QNameOK(t) THEN "err:qname"
   ELSE IF IsNameTok(t) THEN
        IF CanBeOp(prev) THEN (IF t \in OpNames THEN "op:" \o t ELSE "err:operator-name")
        ELSE IF NextIs(ts, i, "(") THEN
